@@ -16,6 +16,11 @@ from ..core import Res
 
 ID = 'C11'
 LEVEL = 'model_checking'
+MANIFEST = {
+    'technique': 'exhaustive grid enumeration + explicit-state walk of the batch navigation graph on the real renderer',
+    'text': 'Every tuple of the 5-dimensional batch parameter grid (per tier) is executed on the real code (opt(), rendered dtml-in with literals and through variables) and judged against a reference window model; the navigation graph (windows = states, printed next/previous start numbers = transitions) is walked to its end for every (length,size,orphan,overlap<size).',
+    'note': 'Trusted: the 15-line reference window model in dtmc/props/c11.py; integer elements in a list; the exact window is pinned only for the start+size form as the statement says.',
+}
 RULE = ('every tuple of the integer grid (length x start x end x size x '
         'orphan x overlap) stated per tier, each run through opt(), a '
         'rendered dtml-in with literal attributes and (quick grid) with '
